@@ -32,6 +32,14 @@ def rankOf (l : List (Int × Int)) (id : Int) : Option Nat :=
   let i := l.findIdx (fun e => e.1 == id)
   if i < l.length then some i else none
 
+/-- a newcomer is refused when the board is full and it does not strictly beat the last entry -/
+def refuses (b : Board) (s : Int) : Bool :=
+  let full : Bool := decide (b.cap > 0 ∧ (b.l.length : Int) ≥ b.cap)
+  let beatsLast : Bool := match b.l.getLast? with
+    | some last => decide (rcmp b.asc s last.2 > 0)
+    | none => true
+  full && !beatsLast
+
 /-- a submission -/
 def submit (b : Board) (id s : Int) : Board :=
   match scoreOf b.l id with
@@ -41,11 +49,7 @@ def submit (b : Board) (id s : Int) : Board :=
       let l1 := eraseId b.l id
       { b with l := insertAt l1 (pos b.asc l1 s) (id, s) }
   | none =>
-    let full : Bool := decide (b.cap > 0 ∧ (b.l.length : Int) ≥ b.cap)
-    let beatsLast : Bool := match b.l.getLast? with
-      | some last => decide (rcmp b.asc s last.2 > 0)
-      | none => true
-    if full && !beatsLast then b
+    if refuses b s then b
     else
       let l2 := insertAt b.l (pos b.asc b.l s) (id, s)
       { b with l := if b.cap > 0 ∧ (l2.length : Int) > b.cap then l2.dropLast else l2 }
@@ -61,8 +65,11 @@ def step (b : Board) : Op → Board × Out
       | some d => (b, .int d.1)
       | none => (b, .err 3)
   | .range s e =>
-      if s < 1 ∨ e < s ∨ s > b.l.length then (b, .err 3)
-      else (b, .ints (((b.l.drop (s - 1).toNat).take (e - (s - 1)).toNat).map (·.1)))
+      if s < 1 ∨ e < s then (b, .err 3)
+      else if s > b.l.length then (b, .err 3)
+      else
+        let e' : Int := if e > b.l.length then b.l.length else e
+        (b, .ints (((b.l.drop (s - 1).toNat).take (e' - (s - 1)).toNat).map (·.1)))
   | .score id => match scoreOf b.l id with
       | some s => (b, .int s)
       | none => (b, .err 1)
@@ -88,6 +95,13 @@ def Good (b : Board) : Prop :=
   Sorted b.asc b.l ∧ NodupIds b.l ∧ (b.cap > 0 → (b.l.length : Int) ≤ b.cap)
 
 /-- erase what the abstract board does not determine (the event lists) -/
+def eraseAll : List Op → List Out → List Out
+  | op :: ops, o :: os => (match op with
+      | .competitor _ _ => Out.undet
+      | .remove _ => Out.undet
+      | _ => o) :: eraseAll ops os
+  | _, _ => []
+
 def erase : Op → Out → Out
   | .competitor _ _, _ => .undet
   | .remove _, _ => .undet
